@@ -350,6 +350,68 @@ class Skip(Exception):
     pass
 
 
+
+# ------------------------------------------------------------------------------------------ G3r
+
+# the custom token `z` in every rendering context that keeps renderer-side state while its children are rendered:
+# top-level paragraph, quote, tight list (bullet), emphasis inside a tight item, loose ordered item, heading, table
+# header and body cell, link text, strong
+RENDER_FAULT_DOC = 'z\n\n> z\n\n- z\n- a *z*\n\n1. z\n\n   z\n\n# z\n\n|z|\n|-|\n|z|\n\n[z](u) **z**\n'
+G3R_RENDERERS = ('Html', 'Toc', 'LaTeX', 'Markdown', 'MarkdownWrap', 'Jira', 'XWiki20')
+
+
+@lemma('G3r.render-faults', 'C11', quick=[{'r': r} for r in G3R_RENDERERS], timeout=900, per_path=200,
+       covers=['base_renderer.py:BaseRenderer.render', 'base_renderer.py:BaseRenderer.render_inner', 'base_renderer.py:BaseRenderer.__exit__',
+               'html_renderer.py:HtmlRenderer.render_list', 'html_renderer.py:HtmlRenderer.render_list_item',
+               'markdown_renderer.py:MarkdownRenderer.render', 'latex_renderer.py:LaTeXRenderer.render_document'],
+       note='the fault is raised by the RENDER function of a custom span token on its c-th call (c in 1..12, symbolic; the token stands '
+            'in a paragraph, quote, tight and loose list items, emphasis, heading, table cells, link text): whatever the renderer had '
+            'pushed at that moment, afterwards the token lists are the defaults and every probe renders as in a fresh interpreter')
+def g3r_render_faults(c: int) -> bool:
+    """
+    pre: 1 <= c <= 12
+    post: _
+    """
+    from mistletoe import Document, span_token
+    rname = P('r')
+    cls, kw = [(k, w) for n, k, w in renderers() if n == rname][0]
+    calls = [0]
+
+    class BadSpan(span_token.SpanToken):
+        precedence = 6
+        pattern = __import__('re').compile(r'z')
+        parse_inner = False
+        parse_group = 0
+
+        def __init__(self, match):
+            self.content = 'z'
+
+    class R(cls):
+        def __init__(self):
+            super().__init__(BadSpan, **kw)
+            self.render_map['BadSpan'] = self.render_bad_span
+
+        def render_bad_span(self, token):
+            calls[0] += 1
+            if calls[0] == c:
+                raise Boom()
+            return super().render_raw_text(token)
+
+    reached = False
+    try:
+        with R() as r:
+            r.render(Document(RENDER_FAULT_DOC))
+    except Boom:
+        reached = True
+    with untraced():
+        ok = token_lists_default() and same_as_baseline(None)
+        repair_state()
+    if not reached and c <= 6:
+        # vacuity guard: every renderer calls the token's render function at least six times on this document
+        return False
+    return ok
+
+
 # ------------------------------------------------------------------------------------------ witnesses
 
 def _after_fault(kind, c, p):
